@@ -106,11 +106,15 @@ func checkC10(tier string, seed int64) int {
 	if tier == "thorough" {
 		steps, nprogs, psteps = 6, 1500, 8
 	}
-	c.Eng.Cfg = map[string]int{"c10_steps": steps}
+	subsetN := 8
+	if tier == "thorough" {
+		subsetN = 11
+	}
+	c.Eng.Cfg = map[string]int{"c10_steps": steps, "c10_subset_n": subsetN}
 	c.Eng.MaxPaths = 300000
 	// Go leaves map iteration order unspecified: maps.Keys (used when the key list is compacted) may return any permutation
 	c.Eng.MapOrderHook = gosx.PermuteInMapsKeys(4)
-	names := []string{"verifH_C10_int", "verifH_C10_string", "verifH_C10_float", "verifH_C10_bool_uint8", "verifH_C10_nil", "verifH_C10_range_mutation"}
+	names := []string{"verifH_C10_int", "verifH_C10_string", "verifH_C10_float", "verifH_C10_bool_uint8", "verifH_C10_nil", "verifH_C10_range_mutation", "verifH_C10_range_delete_subset"}
 	agg := NewAgg()
 	var res []lemmaResult
 	for _, n := range names {
@@ -137,6 +141,7 @@ func checkC10(tier string, seed int64) int {
 	c.Cov("scripts_paths_compared", st.compared)
 	c.Cov("bounds", map[string]int{"history_steps": steps, "script_programs": nprogs, "script_steps": psteps})
 	c.Assumption("host-API histories: operation kind and key symbolic per step (int32/float64 keys unconstrained except NaN; bool; strings from {a,b,c}); the harness keeps a Go map as the model")
+	c.Assumption(fmt.Sprintf("range-delete-subset harness: %d keys (int32- and string-keyed), an arbitrary subset (symbolic mask, all 2^%d) deleted after 0..3 visits, optional insert of a fresh key", subsetN, subsetN))
 	c.Assumption("maps.Keys (compaction path) returns every permutation for ≤ 4 keys, insertion order above")
 	c.Assumption("script programs compare iteration through order-independent aggregates; the only mutation during range in scripts is deleting the current key; other mutation-during-range behaviour is checked by the host-API harness against the spec's guarantees")
 	return c.Finish(false)
